@@ -46,7 +46,7 @@ Record node := mknode {
   blocks : list (N * block);     (* Block index *)
   topo : list (N * N);           (* Topo index: height -> hash *)
   top : N; top_h : N; top_cd : N;
-  tips : list (N * tip);         (* Stats.Tips: key -> tip (keys are not updated when a tip is extended) *)
+  tips : list (N * tip);         (* Stats.Tips: hash of the tip block -> tip (an extended tip is re-filed under its new hash) *)
   ldg : ledger
 }.
 
@@ -337,7 +337,9 @@ Definition check_reorgs (n : node) : res (node * bool) :=
 Definition add_altchain_block (n : node) (b : block) : res (node * bool) :=
   let tips' :=
     match nget (tips n) (prev_hash b) with
-    | Some t => nset (tips n) (prev_hash b) (mktip (b_hash b) (wadd (t_height t) 1) (b_cd b))
+    | Some t => if t_hash t =? prev_hash b
+                then nset (ndel (tips n) (prev_hash b)) (b_hash b) (mktip (b_hash b) (b_height b) (b_cd b))
+                else nset (tips n) (b_hash b) (mktip (b_hash b) (b_height b) (b_cd b))
     | None => nset (tips n) (b_hash b) (mktip (b_hash b) (b_height b) (b_cd b))
     end in
   let n1 := set_blocks (set_tips n tips') (nset (blocks n) (b_hash b) b) in
